@@ -4,7 +4,10 @@ open PwVerif PwVerif.FuncWrap PwVerif.Proto
 
 /-! Line-protocol driver for the FuncWrap model (C17).
 
-    cfg <recast 0|1> <cachedPanel 0|1>
+    cfg <recast 0|1> <cachedPanel 0|1> <dictByHash 0|1> <dcByName 0|1>
+    regkey <class name> <defining object>   (the next `def dict` / `def dc` goes through the class registry: the name
+                                 the factory derives — hash of the specification, `__name__` of the dataclass — and
+                                 a number standing for the defining object itself)
     def fn <validate 0|1> <declared: - | l1,l2,…> <ret>*
                                  ret = t<i> (free term i of all parameters) | p<j> (parameter j) |
                                  I<i>:<k> (free term i if parameter k `is` its default object, else term i+50) |
@@ -122,7 +125,15 @@ inductive Kind where
 
 abbrev Preview := List InPrev × List (String × Hint)
 
+/-- what the registry keeps of a made class -/
+structure Made where
+  kind : Kind
+  pv : Preview
+  proto : Node
+
 structure St where
+  reg : List (RegEntry Made) := []
+  key : Option (String × Nat) := none
   cfg : Cfg := Cfg.pinned
   kind : Kind := .none
   pv : Option Preview := none      -- the class-level preview of the current definition
@@ -200,9 +211,17 @@ def parseSpec (w : String) : Option InPrev :=
     | _ => none
   | _ => none
 
+/-- the class for a definition: straight from the factory, or through the registry when a `regkey` is pending -/
+def defMade (s : St) (byName : Bool) (fresh : Made) : St × List String :=
+  let (m, reg) : Made × List (RegEntry Made) :=
+    match s.key with
+    | none => (fresh, s.reg)
+    | some (name, ident) => classFor byName s.reg name ident fresh
+  ({ s with reg := reg, key := none, kind := m.kind, pv := some m.pv, proto := some m.proto, node := none, ranOk := false },
+    [s!"def ok {showPreview m.pv}"])
+
 def defXf (s : St) (k : Kind) (pv : Preview) : St × List String :=
-  ({ s with kind := k, pv := some pv, proto := some (setupNode pv.1 pv.2), node := none, ranOk := false },
-    [s!"def ok {showPreview pv}"])
+  defMade s s.cfg.dictByHash ⟨k, pv, setupNode pv.1 pv.2⟩
 
 def joinWords (ws : List String) : String := " ".intercalate ws
 
@@ -210,13 +229,15 @@ def init : St := {}
 
 def step (s : St) (ws : List String) : St × List String :=
   match ws with
-  | ["cfg", a, b] =>
-    match a, b with
-    | "0", "0" => ({ s with cfg := ⟨false, false⟩ }, [])
-    | "0", "1" => ({ s with cfg := ⟨false, true⟩ }, [])
-    | "1", "0" => ({ s with cfg := ⟨true, false⟩ }, [])
-    | "1", "1" => ({ s with cfg := ⟨true, true⟩ }, [])
-    | _, _ => (s, ["bad-op"])
+  | ["cfg", a, b, c, d] =>
+    let bit (w : String) : Option Bool := if w == "1" then some true else if w == "0" then some false else none
+    match bit a, bit b, bit c, bit d with
+    | some a, some b, some c, some d => ({ s with cfg := ⟨a, b, c, d⟩ }, [])
+    | _, _, _, _ => (s, ["bad-op"])
+  | ["regkey", name, ident] =>
+    match ident.toNat? with
+    | some i => ({ s with key := some (name, i) }, [])
+    | none => (s, ["bad-op"])
   | "def" :: "fn" :: validate :: decl :: rets =>
     match (if validate == "1" then some true else if validate == "0" then some false else none),
           rets.mapM parseRet with
@@ -289,11 +310,10 @@ def step (s : St) (ws : List String) : St × List String :=
           fields.mapM parseField with
     | some al, some fhs =>
       match nodeFields s.cfg al (fhs.map (·.1)) with
-      | none => ({ s with kind := .none, pv := none, proto := none, node := none, ranOk := false }, ["def err dataclass"])
+      | none => ({ s with key := none, kind := .none, pv := none, proto := none, node := none, ranOk := false }, ["def err dataclass"])
       | some fs' =>
         let pv : Preview := (dcInPreview fs' (fhs.map (·.2)), [("dataclass", some "*")])
-        ({ s with kind := .dc, pv := some pv, proto := some (dcNode fs'), node := none, ranOk := false },
-          [s!"def ok {showPreview pv}"])
+        defMade s s.cfg.dcByName ⟨.dc, pv, dcNode fs'⟩
     | _, _ => (s, ["bad-op"])
   | "inst" :: rest =>
     match s.proto, parseArgs rest with
